@@ -44,3 +44,29 @@ PINNED = {
 }
 
 PINNED_OPTIONS = {"opacity_rounded_with_coordinates": {"ndigits": 0}}
+
+# hand-written documents that exercise one specific composition each (they convert correctly on the unchanged tree)
+FEATURES = {
+    "nested_nested_svg_default_size": f'<svg {NS} viewBox="0 0 100 100"><svg x="10" y="10" width="60" height="80" viewBox="0 0 30 40" overflow="visible"><svg viewBox="0 0 10 10" preserveAspectRatio="xMinYMin meet"><rect width="10" height="10" fill="red"/></svg><rect x="20" y="30" width="5" height="5" fill="blue"/></svg></svg>',
+    "use_cancels_target_transform": f'<svg {NS} viewBox="0 0 100 100"><defs><rect id="a" x="40" y="30" width="20" height="10" fill="red" transform="translate(-30 -20)"/><g id="b" transform="scale(2)"><rect x="30" y="30" width="10" height="10" fill="blue"/></g></defs>'
+                                    f'<use xlink:href="#a" x="30" y="20"/><use xlink:href="#b" transform="scale(0.5)"/><use xlink:href="#a" x="5" y="50"/></svg>',
+    "clippath_with_transform_and_nested_clip": f'<svg {NS} viewBox="0 0 100 100"><defs><clipPath id="inner"><rect x="0" y="10" width="100" height="30"/></clipPath>'
+                                               f'<clipPath id="outer" transform="translate(40 0)" clip-path="url(#inner)"><rect x="0" y="0" width="20" height="100"/></clipPath></defs><rect width="100" height="100" fill="teal" clip-path="url(#outer)"/></svg>',
+    "clip_children_with_different_rules": f'<svg {NS} viewBox="0 0 100 100"><defs><clipPath id="c"><rect x="5" y="5" width="30" height="30"/><path clip-rule="evenodd" d="M50,10 h40 v40 h-40 z M60,20 h20 v20 h-20 z"/></clipPath></defs><rect width="100" height="100" fill="purple" clip-path="url(#c)"/></svg>',
+    "gradient_href_chain_of_three": f'<svg {NS} viewBox="0 0 100 100"><defs><linearGradient id="base" gradientUnits="userSpaceOnUse" x1="10" y1="0" x2="60" y2="0" spreadMethod="reflect"/>'
+                                    f'<linearGradient id="mid" xlink:href="#base"><stop offset="0" stop-color="red"/><stop offset="1" stop-color="blue"/></linearGradient><linearGradient id="top" xlink:href="#mid"/></defs>'
+                                    f'<rect x="5" y="5" width="90" height="40" fill="url(#top)"/><rect x="5" y="55" width="90" height="40" fill="url(#top)" transform="rotate(5)"/></svg>',
+    "radial_percent_focus_nonsquare_viewbox": f'<svg {NS} viewBox="0 0 200 100"><defs><radialGradient id="r" gradientUnits="userSpaceOnUse" cx="50%" cy="50%" r="40%" fx="40%" fy="30%" spreadMethod="repeat" gradientTransform="translate(4 -2)">'
+                                              f'<stop offset="0" stop-color="yellow"/><stop offset="1" stop-color="blue"/></radialGradient></defs><rect x="20" y="10" width="160" height="80" fill="url(#r)"/>'
+                                              f'<rect x="20" y="10" width="60" height="40" fill="url(#r)" transform="translate(30 10) scale(0.5 0.75)"/></svg>',
+    "use_with_opacity_over_shape": f'<svg {NS} viewBox="0 0 100 100"><defs><rect id="r" width="40" height="40" fill="red" opacity="0.8"/></defs><rect x="20" y="20" width="40" height="40" fill="blue"/><use xlink:href="#r" x="10" y="10" opacity="0.5"/><g opacity="0.5"><use xlink:href="#r" x="50" y="50" style="opacity:.4"/></g></svg>',
+    "translucent_group_of_groups": f'<svg {NS} viewBox="0 0 100 100"><g opacity="0.5"><rect x="5" y="5" width="50" height="50" fill="red"/><g opacity="0.5"><rect x="30" y="30" width="40" height="40" fill="blue"/><rect x="50" y="50" width="40" height="40" fill="lime"/></g></g></svg>',
+    "exponent_dust_coordinates": f'<svg {NS} viewBox="0 0 100 100"><path d="M0,0 L10,1e-7 L10,10 L3e-9,10 Z" fill="red"/></svg>',
+    "wrapper_hides_outer_paint": f'<svg {NS} viewBox="0 0 100 100"><g fill="red"><g><rect x="10" y="10" width="30" height="30" fill="black"/><rect x="50" y="50" width="30" height="30"/></g></g></svg>',
+    "nested_descriptive_elements": f'<svg {NS} viewBox="0 0 100 100"><metadata><title>t</title><desc>d</desc></metadata><defs><linearGradient id="t"><stop offset="0" stop-color="red"/><stop offset="1" stop-color="blue"/></linearGradient>'
+                                   f'<linearGradient id="g" xlink:href="#t"><desc>about g</desc></linearGradient></defs><rect width="50" height="50" fill="url(#g)"/></svg>',
+    "three_gradients_order": f'<svg {NS} viewBox="0 0 100 100"><defs>' + "".join(f'<linearGradient id="g{c}"><stop offset="0" stop-color="red"/><stop offset="1" stop-color="{col}"/></linearGradient>' for c, col in zip("abc", ("blue", "lime", "teal")))
+                             + '</defs>' + "".join(f'<rect x="{30 * i}" y="0" width="25" height="25" fill="url(#g{c})"/>' for i, c in enumerate("abc")) + '</svg>',
+    "out_of_range_group_opacity": f'<svg {NS} viewBox="0 0 100 100"><g opacity="1.5"><rect x="5" y="5" width="50" height="50" fill="red"/><rect x="30" y="30" width="50" height="50" fill="blue"/></g></svg>',
+    "root_color_and_display": f'<svg {NS} viewBox="0 0 100 100" color="#00ff00" display="inline" overflow="visible"><rect x="5" y="5" width="50" height="50" fill="red"/></svg>',
+}
